@@ -149,7 +149,7 @@ func (c Config) Defaults() Config {
 }
 
 // MaxGasZero is the sentinel for "consensus MaxGas = 0" (Config.MaxGas == 0 means default).
-const MaxGasZero = int64(-1 << 62)
+const MaxGasZero = int64(-2)
 
 // World is one running application instance.
 type World struct {
